@@ -5,6 +5,7 @@
    clause.  (Well-formedness under faults -- no panic, tree stays well-formed -- is C04's preservation theorem,
    which is also stated for every oracle.) *)
 From AT Require Import Num Vec Aff PTree Cells Abs Cache Elim ElimEval ElimCache CPrune CPruneEval CPruneCache ElimExample ElimFault.
+From AT Require Import EdgeRegion KPrune KPruneEval KPruneExample KElim KElimEval KElimCache KElimExample KFault.
 
 (* faulty o hit bad: at the calls selected by [hit] the answer is replaced by [bad k] -- an Error, an Unbounded,
    or an Optimal with an arbitrary point, never Infeasible (not_inf) *)
@@ -58,3 +59,88 @@ Print Assumptions C11_compose_caches.
 Print Assumptions C11_fault_never_prunes.
 Print Assumptions C11_fault_keeps_edge.
 Print Assumptions C11_nonvacuous.
+
+(* x-c11k begin ---------------------------------------------------------------------------------------------------
+   the same for EVERY branching factor K (Pwl/KFault.v): the K-ary models KElim.kelim (infeasible_elimination) and
+   KPrune.kprune (pruned composition / operators) run with faulty o hit bad. *)
+Theorem C11_kelim_function_unchanged : forall o hit bad tol K t x,
+  osound o x -> (forall k, not_inf (bad k)) -> kshape K t -> kmarks_kids x [] t ->
+  kev (fst (kelim (faulty o hit bad) tol K t)) x = kev t x /\
+  kterm (fst (kelim (faulty o hit bad) tol K t)) x = kterm t x.
+Proof. exact kfault_elim_function_unchanged. Qed.
+Theorem C11_kprune_function_unchanged : forall o hit bad tol s K L x,
+  osound o x -> (forall k, not_inf (bad k)) -> kary K L ->
+  forall t q k, kok s t -> kmarks x q t -> in_rows q x ->
+  kev (fst (kprune (faulty o hit bad) tol s K L t q k)) x = eval (lift s (kerase t) L) x /\
+  kterm (fst (kprune (faulty o hit bad) tol s K L t q k)) x = term (lift s (kerase t) L) x.
+Proof. exact kfault_prune_function_unchanged. Qed.
+Theorem C11_kcompose_function_unchanged : forall o hit bad tol K t L x,
+  osound o x -> (forall k, not_inf (bad k)) -> kary K L -> kok comp_schema t -> kmarks x [] t ->
+  kev (fst (kcompose_prune (faulty o hit bad) tol K t L)) x = eval (compose (kerase t) L) x.
+Proof. exact kfault_compose_function_unchanged. Qed.
+(* no unsound witness or verdict is cached *)
+Theorem C11_kelim_caches : forall o hit bad tol K t,
+  (mir_sound o tol -> kwit_ok tol [] t -> kwit_ok tol [] (fst (kelim (faulty o hit bad) tol K t))) /\
+  (forall x, osound o x -> (forall k, not_inf (bad k)) -> kshape K t -> kmarks_kids x [] t ->
+     kmarks_kids x [] (fst (kelim (faulty o hit bad) tol K t))).
+Proof. exact kfault_elim_caches. Qed.
+(* only less pruning: the classification of a node makes at most the LP call number k_lp k; an answer other than
+   Infeasible never yields the state Infeasible, the node is neither skipped nor queued for removal *)
+Theorem C11_kfault_never_prunes : forall o tol stP q h k s k',
+  kclassify o tol stP q h k = (s, k') -> o_lp o (k_lp k) q <> LInf -> is_infeas s = false.
+Proof. exact kfault_never_prunes. Qed.
+Theorem C11_kfault_never_prunes_faulty : forall o hit bad tol stP q h k s k',
+  hit (k_lp k) = true -> not_inf (bad (k_lp k)) ->
+  kclassify (faulty o hit bad) tol stP q h k = (s, k') -> is_infeas s = false.
+Proof. exact kfault_never_prunes_faulty. Qed.
+Theorem C11_kfault_never_prunes_visit : forall o tol stP q h c k s k' fr sk,
+  kvisit o tol stP q h c k = (s, k', fr, sk) -> k_state c <> Infeas -> o_lp o (k_lp k) q <> LInf ->
+  is_infeas s = false /\ sk = false.
+Proof. exact kfault_never_prunes_visit. Qed.
+(* the edge loop of the pruned composition keeps every existing edge when no LP call is answered Infeasible *)
+Theorem C11_kfault_keeps_edges : forall o tol top st q p', never_inf o -> st <> Infeas ->
+  forall ch l created k, fst (kedges o tol top st q p' ch l created k) = map pexists ch.
+Proof. exact kfault_keeps_edges. Qed.
+(* an LP backend that never answers Infeasible (e.g. every call faulted), no cached Infeasible mark, K >= 2: nothing is
+   removed and nothing is forwarded -- the result without its caches is the input / the un-pruned lifting *)
+Theorem C11_kfault_all_faulted : forall o hit bad, (forall k, hit k = true) -> (forall k, not_inf (bad k)) ->
+  never_inf (faulty o hit bad).
+Proof. exact faulty_all_never_inf. Qed.
+Theorem C11_kfault_elim_removes_nothing : forall o tol K t, never_inf o -> (2 <= K)%nat -> kclean_kids t ->
+  kerase (fst (kelim o tol K t)) = kerase t.
+Proof. exact kfault_elim_removes_nothing. Qed.
+Theorem C11_kfault_prune_removes_nothing : forall o tol s K L, never_inf o -> (2 <= K)%nat ->
+  forall t q k, kclean t -> kerase (fst (kprune o tol s K L t q k)) = lift s (kerase t) L.
+Proof. exact kfault_prune_removes_nothing. Qed.
+
+(* K = 4 (two-row predicates): the runs of KElimExample / KPruneExample with every LP call faulted *)
+Example C11_kfault_nonvacuous :
+  ktree_eqb (fst (kelim (kx_oracle 1) 0 4 kex_t)) kex_r = true /\
+  ktree_eqb (fst (kelim (kf_all LErr) 0 4 kex_t)) kex_t = true /\
+  k_lp (snd (kelim (kf_all LErr) 0 4 kex_t)) = 10%nat /\
+  kerase (fst (kelim (kf_all LUnb) 0 4 kex_t)) = kerase kex_t /\
+  kerase (fst (kelim (kf_all kf_bogus) 0 4 kex_t)) = kerase kex_t /\
+  kerase (fst (kcompose_prune (kf_all LErr) 0 4 kx_t kx_L)) = compose (kerase kx_t) kx_L /\
+  kerase (fst (kcompose_prune (kf_all LUnb) 0 4 kx_t kx_L)) = compose (kerase kx_t) kx_L /\
+  (forall a x, length x = 1%nat -> not_inf a ->
+     osound (kf_all a) x /\ never_inf (kf_all a) /\ kshape 4 kex_t /\ kmarks_kids x [] kex_t /\ kclean_kids kex_t /\
+     kev (fst (kelim (kf_all a) 0 4 kex_t)) x = kev kex_t x /\
+     kterm (fst (kelim (kf_all a) 0 4 kex_t)) x = kterm kex_t x /\
+     kerase (fst (kelim (kf_all a) 0 4 kex_t)) = kerase kex_t /\
+     kev (fst (kcompose_prune (kf_all a) 0 4 kx_t kx_L)) x = eval (compose (kerase kx_t) kx_L) x /\
+     kerase (fst (kcompose_prune (kf_all a) 0 4 kx_t kx_L)) = compose (kerase kx_t) kx_L).
+Proof. exact kfault_example. Qed.
+
+Print Assumptions C11_kelim_function_unchanged.
+Print Assumptions C11_kprune_function_unchanged.
+Print Assumptions C11_kcompose_function_unchanged.
+Print Assumptions C11_kelim_caches.
+Print Assumptions C11_kfault_never_prunes.
+Print Assumptions C11_kfault_never_prunes_faulty.
+Print Assumptions C11_kfault_never_prunes_visit.
+Print Assumptions C11_kfault_keeps_edges.
+Print Assumptions C11_kfault_all_faulted.
+Print Assumptions C11_kfault_elim_removes_nothing.
+Print Assumptions C11_kfault_prune_removes_nothing.
+Print Assumptions C11_kfault_nonvacuous.
+(* x-c11k end ----------------------------------------------------------------------------------------------------- *)
